@@ -218,13 +218,13 @@ def check(ctx):
         progs.append(prog)
         lines += acclib.model_lines(prog)
         spans.append(acclib.n_outputs(prog))
-        metas.append(dict(kind=kind, shape=list(shape), values=vals, L=L))
+        metas.append(dict(kind=kind, shape=list(shape), values=vals, L=L, history_ops=acclib.gen_history_ops(rng, prog)))
     mout = core.run_driver(lines)
     pos = 0
     for prog, k, meta in zip(progs, spans, metas):
         model = acclib.parse_model(mout[pos:pos + k])
         pos += k
-        impl, _ = acclib.run_impl(prog)
+        impl, _ = acclib.run_impl(acclib.apply_history_ops(prog, meta.get('history_ops')))
         flatvals = [acclib.flat(v)[1] for v in meta['values']]
         mx = max([abs(x) for col in flatvals for x in col] + [Fraction(1)])
         scale = mx * mx if meta['kind'] in ('var', 'rvar', 'cov') else mx
@@ -278,7 +278,7 @@ def replay(ctx, data):
     if case.get('kind') == 'cov':
         cov_case(ctx, case['values'], case['d'])
     elif 'spec' in case:
-        raise core.InfraError('P2 replay: rerun the check with the recorded seed')
+        check(ctx)       # regenerated under the recorded seed and tier (core.main sets both from the replay file)
     else:
         grid_case(ctx, case['kind'], tuple(case['shape']), case['values'], case.get('L'), case.get('merge_at'))
     ctx.case(('replay', case.get('kind')), True, sample=case)
